@@ -18,7 +18,6 @@ def showCliErr : CliErr → String
   | .value => "ERR value"
   | .zeroDivision => "ERR zerodiv"
   | .index => "ERR index"
-  | .unpack => "ERR unpack"
 
 def showRat (q : Rat) : String := s!"{q.num}/{q.den}"
 
@@ -70,10 +69,13 @@ def showSpec (sp : InputSpec) : String :=
   "|decoder=" ++ String.ofList sp.decoderName ++ showParams sp.decoderParams ++
   "|rates=" ++ showRats sp.errorRates
 
+/-- rates of one simulation in ascending order (a SplittingSimulation sorts them itself) -/
 def showSim : SimKey → String
-  | (c, r) =>
+  | (c, rs) =>
+    let known := (rs.filterMap id).mergeSort (fun a b => a ≤ b)
+    let unknown := rs.filter Option.isNone
     (match c with | none => "{}" | some (x, y, z) => s!"{x}x{y}x{z}") ++ "@" ++
-    (match r with | none => "{}" | some q => showRat q)
+    ",".intercalate (unknown.map (fun _ => "{}") ++ known.map showRat)
 
 def sortFiles (fs : List (List Char × InputSpec)) : List (List Char × InputSpec) :=
   fs.mergeSort fun a b => String.ofList a.1 ≤ String.ofList b.1
@@ -116,9 +118,8 @@ def handleCli : List String → Option String
     let files := sortFiles (finalFiles ws)
     some (" ;; ".intercalate (files.map fun (n, sp) =>
       String.ofList n ++ "|" ++ String.ofList sp.label ++ "|" ++ String.ofList sp.methodName ++ "|" ++
-        (match expand sp with
-         | .error e => showCliErr e
-         | .ok sims => s!"{sims.length}:" ++ " ".intercalate (sims.map showSim))))
+        (let sims := expand sp
+         s!"{sims.length}:" ++ " ".intercalate (sims.map showSim))))
   | _ => none
 
 end Drv
